@@ -97,7 +97,7 @@ func NewEngine(repo, verifDir, tags string) (*Engine, error) {
 		}
 	}
 	sort.Strings(names)
-	next := int64(1)
+	next := int64(0)
 	for _, k := range names {
 		st := byName[k].Underlying().(*types.Struct)
 		for i := 0; i < st.NumFields(); i++ {
@@ -129,7 +129,7 @@ func (e *Engine) fieldSlot(st *types.Named, idx int) int64 {
 	s, ok := e.slots[k]
 	if !ok {
 		// types from other packages (sync.Mutex...)
-		s = nFieldSlots - 1
+		s = nFieldSlots - 1 // fields of foreign struct types share the last slot (never dereferenced)
 	}
 	return s
 }
@@ -388,7 +388,7 @@ func (e *Engine) TranslateFunc(key string) (res *funcResult) {
 	}()
 	th := Theory{bv: fc.Theory == "bv"}
 	t := &fnTrans{eng: e, th: th, fc: fc, fn: fn, globals: map[string]*Cell{}, cellTyp: map[string]types.Type{},
-		oldSnap: map[string]*Cell{}, callSeq: map[string]int{}, assumptions: map[string]bool{}, usedSpecFuncs: map[string]bool{}}
+		oldSnap: map[string]*Cell{}, callSeq: map[string]int{}, assumptions: map[string]bool{}, usedSpecFuncs: map[string]bool{}, usedAsserts: map[string]bool{}}
 	t.proc = &Proc{Name: key, Props: fc.Props}
 	pre := t.proc.NewBlock("pre")
 	t.proc.Entry = pre
@@ -451,6 +451,11 @@ func (e *Engine) TranslateFunc(key string) (res *funcResult) {
 	t.cur.Goto(body)
 	f.translateBody(body)
 
+	for _, a := range fc.Asserts {
+		if !t.usedAsserts[a.Label] {
+			fail("stale-contract: assert %s: site %q not found", a.Label, a.Site)
+		}
+	}
 	// loops: bind contracts by ordinal
 	heads := loopHeadsInSourceOrder(fn)
 	if want := countASTLoops(e, fn); want >= 0 && want != len(heads) {
